@@ -83,9 +83,12 @@ def render_expr(e):
 
 
 def _matcher_text(s):
+    """-> (text that ends the line, lines that follow)"""
     if "'" in s or '\n' in s:
-        raise ref.Broken('content cannot be written as a hard quoted string: %r' % s)
-    return "'%s'" % s
+        if not s.endswith('\n') or 'EOF' in s.split('\n') or '@[' in s:
+            raise ref.Broken('content cannot be written as a string: %r' % s)
+        return '<<EOF', s[:-1].split('\n') + ['EOF']
+    return "'%s'" % s, []
 
 
 def render(case, info):
@@ -175,10 +178,18 @@ def render(case, info):
                 # (no model value: the literal reading of an invalid usage names a missing file)
                 kind, what = info.get(i, ('d', ('tag', 'unknown')) if site == 'dir-contents' else ('f', 'unknown'))
                 if site == 'contents':
-                    L.append('contents %s : equals %s' % (e, _matcher_text(what)))
+                    txt, more = _matcher_text(what)
+                    L.append('contents %s : equals %s' % (e, txt))
+                    L.extend(more)
                 elif site == 'exists':
                     if kind == 'f':
-                        L.append('exists %s : ( type file && contents equals %s )' % (e, _matcher_text(what)))
+                        txt, more = _matcher_text(what)
+                        if more:
+                            L.append('exists %s : ( type file && contents equals %s' % (e, txt))
+                            L.extend(more)
+                            L.append(')')
+                        else:
+                            L.append('exists %s : ( type file && contents equals %s )' % (e, txt))
                     elif what[0] == 'tag':
                         L.append('exists %s : ( type dir && dir-contents -selection name %s num-files == 1 )'
                                  % (e, what[1]))
@@ -488,7 +499,8 @@ def check(case, subproc=False) -> Verdict:
         problems = []
         ok = False
         if sim.reject in REJ:
-            p = compare_rejected(REJ[sim.reject], o)
+            # (an earlier argument whose acceptance is undocumented may be the one that is rejected, either way)
+            p = compare_rejected(REJ[sim.reject] | (REJ['either'] if sim.maybe else set()), o)
             ok = p is None
             problems.append(('reject:' + sim.reject, p))
         elif sim.reject == 'missing':
@@ -611,6 +623,7 @@ def enum_subprocess(tier):
 SUBS = [
     Sub('manual_agrees', check_manual, enumerate=enum_manual, exhaustive=True),
     Sub('dest_matrix', check, enumerate=gen.dest_matrix, exhaustive=True, render=render_for_evidence),
+    Sub('read_matrix', check, enumerate=gen.read_matrix, exhaustive=True, render=render_for_evidence),
     Sub('paths', check, strategy=lambda tier: gen.cases(tier), budget={'quick': 4000, 'thorough': 100000},
         render=render_for_evidence),
     Sub('subprocess_differential', check_subprocess, enumerate=enum_subprocess, exhaustive=False,
